@@ -1,6 +1,7 @@
 """C15 Fixing a design variable restricts the design space exactly; freeing restores it - structural clauses."""
 import ast
 
+from ..rules.match import FnText
 from ..model import AnalysisError, norm
 from ..cfg import build_cfg
 from ..astutil import short, call_name
@@ -119,9 +120,9 @@ def fix_structure(ctx, rule='A5'):
                         'every normal exit of fix_des_var has cleared the per-object function cache')
     # mask recomputation reads the table through the selection-choice index map
     um = ctx.fn(f'{GP}._update_comb_fixed_mask')
-    txt = ' '.join(norm(s) for s in um.body)
+    txt = FnText(ctx, um)
     ok = 'self._sel_choice_idx_map' in txt and 'self._fixed_values' in txt and \
-        'get_available_combinations_mask(fixed_choices)' in txt and 'self._comb_fixed_mask =' in txt
+        'self._comb_fixed_mask = self._hierarchy_analyzer.get_available_combinations_mask(fixed_choices)' in txt
     ctx.ob(rule, fkey(um, rule, 'mask-from-table'), ok, um.where,
            'the combination mask is recomputed from the fixed values of the selection-choice variables '
            '(design-variable index -> choice index through _sel_choice_idx_map)', '')
@@ -138,9 +139,9 @@ def consumers(ctx, rule='A5c'):
         if m is None:
             raise AnalysisError(f'GraphProcessor.{name} vanished')
         ctx.touch(m)
-        return m, ' '.join(norm(s) for s in m.body)
+        return m, FnText(ctx, m)
     m, t = src('des_vars')
-    ctx.ob(rule, fkey(m, rule, 'des-vars-exclude-fixed'), 'not in fixed_values' in t and
+    ctx.ob(rule, fkey(m, rule, 'des-vars-exclude-fixed'), 'if i not in fixed_values' in t and
            'fixed_values = self._fixed_values' in t, m.where,
            'des_vars lists exactly the design variables whose index is not in the fixed-value table', t[:140])
     m, t = src('_get_all_des_var_values')
@@ -184,8 +185,8 @@ def consumers(ctx, rule='A5c'):
            'the mask handed to the analyzers is the conjunction of the infeasibility mask and the fixed mask', '')
     # complete analyzer: mask of combinations with the fixed option
     f = ctx.fn(f'{COMPLETE}._get_available_combinations_mask')
-    t = ' '.join(norm(s) for s in f.body)
-    ok = '== i_opt' in t and 'fixed_comb_set & fixed_comb_set_i' in t and 'fixed_comb_set_i |= its.i_set' in t
+    t = FnText(ctx, f)
+    ok = 'if its.scenario.opt_idx_combinations[its.i_usi][its.i_comb, i_ch[0]] == i_opt' in t and 'fixed_comb_set & fixed_comb_set_i' in t and 'fixed_comb_set_i |= its.i_set' in t
     ctx.ob(rule, fkey(f, rule, 'available-combinations'), ok, f.where,
            'a combination is available iff for every fixed choice some scenario containing it selects exactly '
            'the fixed option (union within a choice, intersection across choices)', '')
@@ -248,4 +249,10 @@ VARIANTS = [
     V('twin-fix-range-rewritten', 'optimization/graph_processor.py',
       [("                if value < 0 or value >= des_var.n_opts:", "                if not (0 <= value <= des_var.n_opts-1):")],
       expect='silent'),
+    V('twin-rename-local-in-des-vars', 'optimization/graph_processor.py',
+      [("        fixed_values = self._fixed_values\n        return [des_var for i, des_var in enumerate(self.all_des_vars) if i not in fixed_values]",
+        "        fixed = self._fixed_values\n        return [dv for k, dv in enumerate(self.all_des_vars) if k not in fixed]")], expect='silent'),
+    V('twin-rename-locals-in-merge', 'optimization/graph_processor.py',
+      [("        fixed_values = self._fixed_values\n        i_value = 0\n        values = []\n        for i, des_var in enumerate(self.all_des_vars):\n            if i in fixed_values:\n                values.append(fixed_values[i])\n            else:\n                values.append(des_var_values[i_value])\n                i_value += 1\n        return values",
+        "        fixed = self._fixed_values\n        pos = 0\n        out = []\n        for k, des_var in enumerate(self.all_des_vars):\n            if k in fixed:\n                out.append(fixed[k])\n            else:\n                out.append(des_var_values[pos])\n                pos += 1\n        return out")], expect='silent'),
 ]
